@@ -123,12 +123,13 @@ JudgeRestart(e) ==
       Tag(\E o \in outcomes : Same(o, obs), "Crash.outcome-not-in-model") \o
       Tag(\E o \in outcomes : Same(o, obs) /\ o.cache = obs.cache, "Restart.cache") \o
       Tag(~e.state.addMark /\ ~e.state.rmMark /\ ~e.state.reorgMark, "Model.MarksLeft") \o
-      (IF cheads = <<>> THEN <<>>      \* the death was inside a fork switch of the sync processor: an extension
-                                      \* beyond C05's entry point, whose uninterrupted run can itself end below the
-                                      \* old head (Ext.WeightMonotone.fork-path); the head clause is not judged, the
-                                      \* stores and the outcome are (JudgeInv, Crash.outcome-not-in-model)
-       ELSE IF obs.latest \in CrashHeadStrict(tr, cheads) THEN <<>>
-       ELSE IF obs.latest \in CrashHeadWeak(tr, cheads) THEN <<"Crash.HeadStrict.ancestor-of-old-head">>
+      (IF obs.latest \in CrashHeadStrict(tr, cheads.h) THEN <<>>
+       ELSE IF obs.latest \in CrashHeadWeak(tr, cheads.h)
+         THEN (IF cheads.f THEN <<>>   \* the death was inside a fork switch of the sync processor: an extension
+                                      \* beyond C05's entry point, whose uninterrupted run can itself end at an
+                                      \* ancestor of the old head (Ext.WeightMonotone.fork-path): only a head that is
+                                      \* not even an ancestor of a head of the call is a verdict there
+               ELSE <<"Crash.HeadStrict.ancestor-of-old-head">>)
        ELSE <<"Crash.HeadNotAllowed">>)
 
 Judge(e) ==
@@ -140,7 +141,7 @@ Judge(e) ==
     [] OTHER -> <<>>
 
 TraceInit == /\ l = 1 /\ bad = <<>> /\ tr = <<>> /\ txIds = <<>>
-             /\ ms = [todo |-> <<>>] /\ pend = {} /\ cheads = <<0>>
+             /\ ms = [todo |-> <<>>] /\ pend = {} /\ cheads = [h |-> <<0>>, f |-> FALSE]
 
 TraceNext ==
   /\ l <= Len(Trace)
@@ -150,7 +151,7 @@ TraceNext ==
        /\ CASE e.event = "Reset" ->
                  /\ tr' = TreeOf(e) /\ txIds' = e.txIds
                  /\ ms' = Obs(TreeOf(e), e.txIds, e.state, [i \in Ids0(TreeOf(e)) |-> None], {}, "none")
-                 /\ pend' = {} /\ cheads' = <<0>>
+                 /\ pend' = {} /\ cheads' = [h |-> <<0>>, f |-> FALSE]
             [] e.event = "Deliver" ->
                  LET pre == [ms EXCEPT !.pending = @ \cup (TxsOf(tr, e.b) \ ms.executed)]
                      exp == Deliver(tr, pre, e.b)
@@ -163,10 +164,10 @@ TraceNext ==
             [] e.event \in {"Crash", "Died"} ->
                  /\ pend' = CrashStates(e)
                  /\ cheads' = IF e.phase # "deliver" THEN cheads
-                              ELSE IF e.kind = "F" THEN <<>> ELSE HeadsOfCall(tr, CallBegin(e))
+                              ELSE [h |-> HeadsOfCall(tr, CallBegin(e)), f |-> e.kind = "F"]
                  /\ UNCHANGED <<tr, txIds, ms>>
             [] e.event = "Stop" ->      \* a clean stop at a quiescent point: the next event is a Restart
-                 /\ pend' = {ms} /\ cheads' = <<ms.latest>>
+                 /\ pend' = {ms} /\ cheads' = [h |-> <<ms.latest>>, f |-> FALSE]
                  /\ UNCHANGED <<tr, txIds, ms>>
             [] e.event = "Restart" ->
                  /\ ms' = Obs(tr, txIds, e.state, [i \in Ids0(tr) |-> None], {}, "none")
